@@ -22,8 +22,8 @@ CHECKS = {
    text="Every typed attribute reader the model parser dispatches to is proved for all byte contents (byte/255, tangent, IEEE half incl. the half crate's conversion against an integer-only binary16 spec, raw bytes/u16/f32), pad_slice, the vertex element record and declaration block (thorough). The element addressing inside MDL::from_existing is not decided.",
    note=_COMMON_NOTE + " half: software conversion path (cpuid stubbed to 'no f16c').", technique="Kani full-domain loop-free proof harnesses over the attribute readers"),
  "C07": dict(level="other",
-   text="MDL::update_headers is proved by Verus on the extracted real function for ANY number of meshes per LOD (stream counts <= 3, no-overflow preconditions stated): per-LOD vertex section = sum count x total stride, index section = 2 x indices padded by 1..16 to a multiple of 16, sections chained from runtime+0x44+stack (disjoint, ordered, contiguous), per-mesh stream offsets = running sums inside the section (in-bounds corollary), file-header mirroring, shape counts, frame on mesh fields; calculate_runtime_size = the documented layout formula. Attribute re-encoding proved for every canonical encoding (Kani). Record-size constants vs writers, declaration writer, concrete-layout twins of update_headers (Kani). Whole-model write/parse identity is not decided.",
-   note=_COMMON_NOTE + " The two `for x in &mut vec` loops of update_headers are rewritten to index loops for Verus (rule X5, DESIGN.md 9.5); calculate_stack_size is an assumed callee contract in the Verus unit, discharged by the Kani layout units.", technique="Verus deductive proof (loop invariants over prefix-sum specs) of the extracted update_headers + Kani codec round trips and layout twins"),
+   text="MDL::update_headers and the edit operations replace_vertices / add_shape_mesh / remove_shape_meshes (each verified modularly against update_headers' contract) are proved by Verus on the extracted real functions for ANY number of meshes per LOD (stream counts <= 3, no-overflow preconditions stated): per-LOD vertex section = sum count x total stride, index section = 2 x indices padded by 1..16 to a multiple of 16, sections chained from runtime+0x44+stack (disjoint, ordered, contiguous), per-mesh stream offsets = running sums inside the section (in-bounds corollary), file-header mirroring, shape counts, frame on mesh fields; calculate_runtime_size = the documented layout formula. Attribute re-encoding proved for every canonical encoding (Kani). Record-size constants vs writers, declaration writer, concrete-layout twins of update_headers (Kani). Whole-model write/parse identity is not decided.",
+   note=_COMMON_NOTE + " `for x in &mut vec` and `for (i, x) in v.iter().enumerate()` loops are rewritten to index loops for Verus (rules X5/X6, DESIGN.md 9.5); Vec::from(&[T]) has an assumed length contract; calculate_stack_size is an assumed callee contract in the Verus unit, discharged by the Kani layout units.", technique="Verus deductive proof (loop invariants over prefix-sum specs) of the extracted update_headers + Kani codec round trips and layout twins"),
  "C09": dict(level="other",
    text="CustomizeData read (plain fields all contents; enum positions thorough) and write for every value at the documented offsets; gear-id marker round trip, gear slot record, slot-index table, DatHeader; the documented checksum formula (thorough, empty comment). Whole-file layouts are not decided.",
    note=_COMMON_NOTE, technique="Kani proof harnesses over derive-generated records and pure converters"),
